@@ -441,3 +441,15 @@ def prev_recorded(O, rep):
         claim = z3.And(eng.tag_of(prev, None) == bv64(1), eng.length(sl) == bv64(1), eng.tag_of(e0, None) == tag0,
                        z3.Implies(tag0 == NUM, eng.scalar(eng.field(eng.downcast(e0, "Number"), 0, "i64")) == val0))
         rep.prove(O, p, claim, "after get_row the iterator remembers the row it has just produced")
+
+
+@obligation("C05/rows-are-written", profiles=("dev",),
+            desc="every row get_row yields is handed to the device: next() performs the row's IO and handle_io makes exactly "
+                 "one driver call per row (write-only for the two mid-clock rows), whatever the row's changed flags say - so a "
+                 "clock triple is three device writes")
+def rows_are_written(O):
+    from . import C02, dri
+    from . import batteries as B_
+    W = dri.WithRep(O, dri.Rep({"family": "protocol"}, B_.protocol_battery(), B_.protocol_judge))
+    C02.handle_io(W)
+    C02.next_core(W, None)
